@@ -38,6 +38,10 @@ def dags(tier):
         Skel('d4-tie', [0, 1, 2, 'g'], {0: ('a', 'b'), 1: ('a',), 2: ('a',), 'g': ('a',)},
              {(0, 'a'): (1,), (0, 'b'): (2,), (1, 'a'): ('g',), (2, 'a'): ('g',), ('g', 'a'): ('g',)}, absorbing=['g'], init=[0]),
     ]
+    # a state (1) that a trial may skip but the labelling pass reaches: it is labelled solved without ever being updated, and it has a choice
+    # between an absorbing and a non-absorbing successor (the returned policy there is the fallback rule)
+    F.append(Skel('d4-fallback', [0, 1, 2, 'g'], {0: ('a',), 1: ('a', 'b'), 2: ('a',), 'g': ('a',)},
+                  {(0, 'a'): (1, 'g'), (1, 'a'): ('g',), (1, 'b'): (2,), (2, 'a'): ('g',), ('g', 'a'): ('g',)}, absorbing=['g'], init=[0]))
     if tier == 'thorough':
         F.append(Skel('d4-branch', [0, 1, 2, 'g'], {0: ('a', 'b'), 1: ('a', 'b'), 2: ('a',), 'g': ('a',)},
                       {(0, 'a'): (1, 2), (0, 'b'): (2,), (1, 'a'): ('g', 2), (1, 'b'): ('g',), (2, 'a'): ('g',), ('g', 'a'): ('g',)}, absorbing=['g'], init=[0, 1]))
